@@ -9,6 +9,14 @@
 #include "algorithms/openmp/tbfopenmpalgorithm.hpp"
 #include "algorithms/openmp/tbfopenmpalgorithmtsm.hpp"
 #endif
+#if defined(VF_EXEC_SPECX) || defined(VF_EXEC_SPECX_TSM)
+#include "algorithms/smspecx/tbfsmspecxalgorithm.hpp"
+#include "algorithms/smspecx/tbfsmspecxalgorithmtsm.hpp"
+#endif
+#if defined(VF_EXEC_STARPU) || defined(VF_EXEC_STARPU_TSM)
+#include "algorithms/smstarpu/tbfsmstarpualgorithm.hpp"
+#include "algorithms/smstarpu/tbfsmstarpualgorithmtsm.hpp"
+#endif
 
 #ifdef VF_COUNTER
 #include "kernels/counterkernels/tbfinteractioncounter.hpp"
@@ -37,6 +45,26 @@ constexpr bool TSM = false;
 using SeqAlgoT = SeqAlgo;
 using ParAlgo = TbfOpenmpAlgorithm<double, KernelUsed, SI3>;
 static const char* ExecName = "TbfOpenmpAlgorithm";
+#elif defined(VF_EXEC_SPECX)
+constexpr bool TSM = false;
+using SeqAlgoT = SeqAlgo;
+using ParAlgo = TbfSmSpecxAlgorithm<double, KernelUsed, SI3>;
+static const char* ExecName = "TbfSmSpecxAlgorithm(mock runtime)";
+#elif defined(VF_EXEC_SPECX_TSM)
+constexpr bool TSM = true;
+using SeqAlgoT = TbfAlgorithmTsm<double, FX3::Kernel, SI3>;
+using ParAlgo = TbfSmSpecxAlgorithmTsm<double, KernelUsed, SI3>;
+static const char* ExecName = "TbfSmSpecxAlgorithmTsm(mock runtime)";
+#elif defined(VF_EXEC_STARPU)
+constexpr bool TSM = false;
+using SeqAlgoT = SeqAlgo;
+using ParAlgo = TbfSmStarpuAlgorithm<double, KernelUsed, SI3>;
+static const char* ExecName = "TbfSmStarpuAlgorithm(mock runtime)";
+#elif defined(VF_EXEC_STARPU_TSM)
+constexpr bool TSM = true;
+using SeqAlgoT = TbfAlgorithmTsm<double, FX3::Kernel, SI3>;
+using ParAlgo = TbfSmStarpuAlgorithmTsm<double, KernelUsed, SI3>;
+static const char* ExecName = "TbfSmStarpuAlgorithmTsm(mock runtime)";
 #endif
 
 template <class FX> u64 fullDigest(const FX& fx){ if constexpr (TSM) return hcomb(fx.tsmDigest(true), fx.tsmDigest(false)); else return fx.treeDigest(); }
@@ -67,6 +95,20 @@ Spec leavesSpec(const int height, const std::vector<long>& leaves, const long bs
 std::vector<Job> jobsForSingle(const std::string& tier, const bool traceBuild);
 std::vector<Job> jobsFor(const std::string& tier, const bool traceBuild){
     std::vector<Job> j = jobsForSingle(tier, traceBuild);
+#if defined(VF_EXEC_OMP)
+    const bool commutative = false;
+#else
+    const bool commutative = true;     // commutative accesses are unordered: the state spaces are much larger than with OpenMP's inout
+#endif
+    if(commutative && traceBuild && tier != "thorough"){
+        for(auto& job : j) if(job.mode == 0 && job.name != "h3-4leaves-bs2" && job.name != "h3-4leaves-bs2-ogpp"){ job.mode = 2; job.bound = 1; }
+    }
+    if(commutative && !TSM){
+        for(auto& job : j){
+            if(tier != "thorough" && job.mode == 0 && (job.name == "h4-4leaves-bs2-upper1" || job.name == "h3-6leaves-bs2" || job.name == "h5-4leaves-bs2" || job.name == "h5-6leaves-bs3")){ job.mode = 2; job.bound = 2; }
+            if(tier != "thorough" && job.mode == 2 && job.name == "h4-11leaves-bs4-two") job.bound = 1;
+        }
+    }
     if(TSM){
         // target/source: the listed leaves are the targets; sources sit on a shifted/overlapping set of leaves with another motif
         for(auto& job : j){
@@ -187,7 +229,9 @@ struct JobRunner {
             t.kernelUsed = fxp->cx.lastKernelThis;
             t.obsDigest = fxp->cx.taskDigest;
             fxp->cx.taskDigest = 0;
-            if(algoPtr && t.kernelUsed && t.kernelUsed != static_cast<const void*>(algoPtr->kernels.data() + t.worker))
+            if(algoPtr && t.worker >= int(algoPtr->kernels.size()))
+                workerViolations.push_back("OUT-OF-RANGE task " + std::to_string(t.id) + " (" + t.label + ") ran on worker " + std::to_string(t.worker) + " but the executor holds only " + std::to_string(algoPtr->kernels.size()) + " kernel object(s)");
+            else if(algoPtr && t.kernelUsed && t.kernelUsed != static_cast<const void*>(algoPtr->kernels.data() + t.worker))
                 workerViolations.push_back("task " + std::to_string(t.id) + " (" + t.label + ") on worker " + std::to_string(t.worker) + " used another worker's kernel object");
             fxp->cx.lastKernelThis = nullptr;
         };
@@ -225,7 +269,7 @@ struct JobRunner {
         }
         for(const auto& v : tr.violations) out.add("schedule:" + v.substr(0, v.find(':')), v);
         for(const auto& kv : fx.cx.violations) out.add("call:" + kv.first, kv.second);
-        for(const auto& w : workerViolations) out.add("worker:foreign-kernel", w);
+        for(const auto& w : workerViolations) out.add(w.compare(0, 12, "OUT-OF-RANGE") == 0 ? "worker:kernel-index-out-of-range" : "worker:foreign-kernel", w);
         for(const auto& t : tr.tasks){
             if(!t.executed) out.add("schedule:task-not-executed", "task " + std::to_string(t.id));
             for(const auto& lv : t.lifetimeViolations){
@@ -246,7 +290,7 @@ struct JobRunner {
                 return std::string(op) + (f != std::string::npos ? "." + l.substr(f+8) : "");
             }
         }
-        return l.substr(0, 40);
+        return l.substr(0, 40);   // Specx / StarPU task names are used as they are
     }
 
     // happens-before race check on the explicit DAG: two tasks that are neither ordered by the transitive closure of the
@@ -279,6 +323,7 @@ std::string caseOf(const Job& job, const std::string& what){
 }
 
 void runJob(const Job& job, const bool traceBuild, Report& rep, Progress& pg){
+    const auto jobStart = std::chrono::steady_clock::now();
     JobRunner jr; jr.job = job; jr.trace = traceBuild; jr.rep = &rep;
     jr.computeSequential();
     // named schedules
@@ -334,11 +379,12 @@ void runJob(const Job& job, const bool traceBuild, Report& rep, Progress& pg){
     rep.counters["runs"] += ex.stats.runs;
     rep.counters["max_distinct_terminal_digests"] = std::max<unsigned long>(rep.counters["max_distinct_terminal_digests"], ex.stats.terminalDigests);
     rep.nontrivial += 1;
+    rep.counters["max_job_seconds"] = std::max<unsigned long>(rep.counters["max_job_seconds"], (unsigned long)std::chrono::duration<double>(std::chrono::steady_clock::now() - jobStart).count());
     if(ex.stats.capped) rep.exhaustive = false;
-    rep.spaces.push_back(std::string(traceBuild ? "[trace build] " : "[fast build] ") + job.name + " W=" + std::to_string(job.nbWorkers) + ": "
+    rep.spaces.push_back(std::string(ExecName) + (traceBuild ? " [trace build] " : " [fast build] ") + job.name + " W=" + std::to_string(job.nbWorkers) + ": "
         + (job.mode == 0 ? "full state space" : "deviation bound " + std::to_string(job.bound)) + ": states=" + std::to_string(ex.stats.states)
         + " transitions=" + std::to_string(ex.stats.transitions) + " complete executions=" + std::to_string(ex.stats.runs)
-        + " distinct terminal digests=" + std::to_string(ex.stats.terminalDigests) + (ex.stats.capped ? " CAPPED" : ""));
+        + " distinct terminal digests=" + std::to_string(ex.stats.terminalDigests) + (ex.stats.capped ? " CAPPED" : "") + " [" + std::to_string((long)std::chrono::duration<double>(std::chrono::steady_clock::now() - jobStart).count()) + " s]");
     pg.publish(rep);
 }
 
